@@ -12,6 +12,11 @@ CHECKS = {
          "Quick: all 6.4 M space-joined strings of 1..4 tokens over a 50-token alphabet (thorough: 1..5, 319 M), every operator over all ordered pairs of a 53-value boundary pool in literal and bound forms, every built-in function/macro/type name found in the repository's tables called as function and as method with every argument tuple of arity 0..2 (pool) and 3 (thorough: 4) over a 12-value pool plus 8 macro shapes, and 16 nesting constructs at depths 1..65536, each rung in its own child process, in two build profiles and on 8 MiB and 2 MiB stacks. Oracle: a value, an error or a syntax error - never a panic (caught at the API boundary), abort (signal) or hang. Complete for these bounds.",
          "Trusted: catch_unwind + process exit status as observers. Inputs beyond the bounds are not explored. Cyclic program graphs are covered by C12's check. A known finding is keyed by construct, profile, stack size and depth class.",
          "DESIGN.md section 3, C01"),
+ "C02": ("exploration",
+         "bounded exhaustive enumeration of flat operator sequences with prefix/postfix decorations, each parsed by an independent table-driven reference parser and compared with the canonicalised public syntax tree in 9 renderings plus evaluation",
+         "Every flat sequence operand (op operand)^k, k <= 3/4, over the 14 binary operators and ? : (16 symbols), plain, with each of 29 prefix-run x postfix-chain decorations on one operand at a time and (k <= 1/2) on all operands at once; the canonical form of Program::ast() must equal the reference tree in 9 renderings (as is / parenthesised per the reference tree / doubly parenthesised x no blanks / single blanks / newline-tab runs) and evaluation under an int and a bool environment must equal the reference evaluation of the reference tree; sequences the grammar gives no structure must be rejected. Complete for these bounds only.",
+         "Trusted: the reference parser in c02.rs as the reading of the CEL grammar; call arguments are compared in source order.",
+         "DESIGN.md section 3, C02"),
  "C03": ("exploration",
          "bounded exhaustive enumeration of operand pairs x operators x literal/bound forms x build profiles against an exact i128/IEEE reference model",
          "Every ordered pair of a boundary grid (quick 75 values, thorough 609: all +-2^k, +-2^k+-1, uint edges, 26 doubles incl. NaN/inf/-0/subnormals, one value per other type) under + - * / % and unary minus, in all four literal/bound forms and in two build profiles, is executed on the real compiler+VM and compared with exact arithmetic. Complete for the grid; says nothing about operands outside it.",
@@ -42,6 +47,11 @@ CHECKS = {
          "Field paths of depth 0..4 in 4 spellings x every binding configuration (chain stops at any level: root unbound, field missing, null, int, string, list, empty map; or reaches a null/value/map leaf) x has() in 9 contexts and through a loop variable and coalesce(e, 'dflt') in 5 contexts and through a loop variable; every coalesce argument list of length 0..4/5 over 14 item kinds (present, null, unbound, missing field/index, null field, foldable and run-time division by zero, type error, bad index, call-recording present/null) in 4 contexts with the exact set of evaluated arguments; has() over each item. Complete for these bounds only.",
          "A field looked up on a non-map value may count as absent or other; only consistency between has, coalesce and all contexts is demanded there.",
          "DESIGN.md section 3, C08"),
+ "C10": ("model_checking",
+         "explicit-state exploration of an abstract stack machine (block, pc, height) over all paths of every emitted block, bound to the implementation by replaying real VM traces (hook) against the model; exhaustive enumeration of short instruction sequences against a reference small-step VM",
+         "For 12.5k/0.3M generated programs (C09's templates in every literal/variable mask, all || && ?: ! trees with <=2/3 internal nodes over 4 atoms, match with 0..2/3 cases x 6 patterns x 6 arms x 4 scrutinees, f-strings, macros with branching bodies, chains) every block incl. nested code blocks is explored over ALL paths: every reachable (pc, height) state, jump targets in range and forward, no pop from an empty stack, one height per pc, height 1 at the end. Every real execution under every assignment of up to 3 variables over 4 values is replayed against the model (same heights, only model edges). All instruction sequences of length 1..3/4 over 7 plain instructions and jmp/jmp-if with every forward distance and 3 out-of-range distances are loaded through the public deserialiser and compared with a reference VM. Evidence reports states, transitions, blocks, traces validated and model edges covered.",
+         "Trusted: the trace hook (feature rscel_verif). A disagreement between the stack-effect table and the VM is a machinery error (exit 2), not a verdict.",
+         "DESIGN.md section 3, C10"),
  "C13": ("exploration",
 
          "bounded exhaustive enumeration of literal spellings whose denoted value the generator knows by construction",
